@@ -1786,6 +1786,16 @@ class Interp(object):
         return hook
       raise Unsupported("call of object %r" % (f,))
     if isinstance(f, ExtAttr):
+      if f.path.startswith("np.") and _all_concrete_np(list(args) + list(kwargs.values())):
+        # concrete numpy call on concrete arguments (arrays, numbers, tuples): executed by numpy itself
+        import numpy as _np
+        fn = _np
+        try:
+          for part in f.path.split(".")[1:]:
+            fn = getattr(fn, part)
+          return fn(*args, **kwargs)
+        except Exception as e:  # pylint: disable=broad-except
+          raise PyRaise(type(e).__name__, (str(e),))
       if self.term_mode:
         if f.path.endswith("serialize") and args and args[0] is None:
           return None                      # Keras: serialize(None) / deserialize(None) is None
@@ -1912,6 +1922,32 @@ class Interp(object):
     if isinstance(v, set):
       return set(v)
     return v
+
+
+def _all_concrete_np(vals):
+  import numpy as _np
+  ok = False
+  for v in vals:
+    if isinstance(v, _np.ndarray):
+      ok = True
+    elif isinstance(v, (int, float, bool, str)) or v is None:
+      pass
+    elif isinstance(v, (tuple, list)):
+      if not all(isinstance(x, (int, float, bool, _np.ndarray, tuple, list)) for x in v):
+        return False
+      if any(isinstance(x, (list, tuple)) and not _all_plain(x) for x in v):
+        return False
+      ok = ok or _all_plain(v)
+    else:
+      return False
+  return ok
+
+
+def _all_plain(v):
+  import numpy as _np
+  if isinstance(v, (list, tuple)):
+    return all(_all_plain(x) for x in v)
+  return isinstance(v, (int, float, bool, _np.ndarray))
 
 
 def _sstr_may_contain(pieces, needle):
